@@ -79,6 +79,8 @@ def run_case(q):
         out["reps"] = reps
         out["numba_threads"] = int(numba.get_num_threads())
         return out
+    if q.get("entry") is not None:
+        return run_entry(q, out, pv)
     Y = np.array(q["Y"], dtype=np.int32)
     X = np.array(q["X"], dtype=np.int32)
     r = np.float32(q["r"])
@@ -95,6 +97,32 @@ def run_case(q):
         Y2 = np.array(q["Y2"], dtype=np.int32)
         poison(pv, target)
         out["score2"] = fl(m.mutual_info_estimator_numba(Y2, X, r, c))
+    return out
+
+
+def run_entry(q, out, pv):
+    """the Python / CLI path: importance_estimator.numba_mi or conduct_feature_ranking with the ratio as the user gave it
+    (a Python float, or an np.float32 object); vectors as the pipeline passes them (int64 codes, feature optionally as an
+    (n, 1) column)"""
+    from types import SimpleNamespace
+    from outrank.algorithms import importance_estimator as ie
+    e = q["entry"]
+    ratio = np.float32(e["ratio"]) if e.get("ratio_kind") == "f32" else float(e["ratio"])
+    X = np.array(q["X"], dtype=np.int64)
+    target = 8 * int(min(float(ratio), 1.0) * len(X))
+
+    def call(Yl):
+        vf = np.array(Yl, dtype=np.int64)
+        if e.get("shape") == "col":
+            vf = vf.reshape(-1, 1)
+        poison(pv, target)
+        if e.get("via") == "numba_mi":
+            return ie.numba_mi(vf, X.copy(), e["heuristic"], ratio)
+        args = SimpleNamespace(heuristic=e["heuristic"], mi_stratified_sampling_ratio=ratio)
+        return ie.conduct_feature_ranking(vf, X.copy(), args)
+    out["score"] = fl(call(q["Y"]))
+    if q.get("Y2") is not None:
+        out["score2"] = fl(call(q["Y2"]))
     return out
 
 
